@@ -34,7 +34,7 @@
        The proof uses only that the delete is "delete-only" ([DelOnly]: its operations are ListDir,
        Probe, lock operations, Remove, and Rename onto a deletion marker), hence every document is
        at every moment what it was at the start, or absent — and absent stays absent.
-   §3  bounded: OnePidQuads.lin_nf_quads12 — 294 quadruples (4 threads, 2 documents, at least one
+   §3  bounded: OnePidQuads.lin_nf_quads12 — 308 quadruples (4 threads, 2 documents, at least one
        whole-pid delete) are linearizable under every schedule (kernel-evaluated explorer). *)
 From HS Require Import Base PyVal FS Ops Sched Spec SeqLemmas Bracket Lin Indep IndepMeta OneDoc
   OneDocReaders OneDocDel.
